@@ -46,6 +46,8 @@ Always(e) ==
   /\ Report("C04.OnlyEndBlockRemoves", Gone # {} => e.act = "EndBlock")
   /\ Report("C04.OnlyEndBlockElects", (\E id \in DOMAIN msgs \cap DOMAIN msgs' : msgs[id].elected = 0 /\ msgs'[id].elected # 0) => e.act = "EndBlock")
   /\ Report("C13.OnlyEndBlockJails", jailed' # jailed => e.act = "EndBlock")
+  \* what a validator supplied stays on record as long as the message exists (only its own next submission replaces it)
+  /\ Report("C13.EvidenceSurvives", e.act # "Evidence" => \A id \in DOMAIN msgs \cap DOMAIN msgs' : msgs'[id].ev = msgs[id].ev)
   /\ (e.res = "fail" => Report("C04.RejectedIsNoOp", msgs' = msgs /\ refHeight' = refHeight /\ jailed' = jailed))
 
 Keep == UNCHANGED <<nextId, keyver, removedBy, applied>>
